@@ -64,6 +64,7 @@ CASE_TIMEOUT = 420
 MIN_EVALS = 150
 CALL_BUDGET = 200.0  # seconds per library call; firing => inconclusive, never a verdict
 CASE_COST = {"quick": 9.0, "thorough": 14.0}
+CNLS_MAX_NFEV = 100  # cnls fits need room to converge: starved fits (max_nfev ~20) give degenerate chi-squared curves, the F20 mechanism
 
 KK_TESTS = ["complex", "real", "imaginary", "complex-inv", "real-inv", "imaginary-inv", "cnls"]
 KK_NFE = [-20, -10, 0, 10, 11, 20]
@@ -579,9 +580,9 @@ def run_call(ep, opts, f, Z, out):
             if d["progress"] and trace.overruns:
                 pass  # already reported as progress-overrun
             else:
-                key = known_key(ent, ep, opts, exc, d, sparse)
+                key = known_key(ent, ep, opts, exc, d, n)
                 if key is None:
-                    key = f"C18/{ent}/crash:{d['type']}@{origin}" + (":sparse" if sparse and ent == "kk" else "")
+                    key = f"C18/{ent}/crash:{d['type']}@{origin}" + (":sparse" if sparse and ent == "kk" else (":n<3" if n < 3 and ent != "kk" else ""))
                 bad(key, f"aborted part-way with {d['type']}: {str(exc)[:160]} at {d['where']}" + (" (raised in a pool worker)" if d["remote"] else "")
                          + f" after {trace.steps} progress steps (max i/total {trace.max_frac:.2f})", {"origin": d, "traceback": monitors.tb_tail(exc, 8)})
     out["keys"].append(_cell(ep, opts) + (("sparse" if sparse else "ordinary"), n % 2))
@@ -595,16 +596,20 @@ def run_call(ep, opts, f, Z, out):
     return outcome
 
 
-def known_key(ent, ep, opts, exc, d, sparse):
-    """Narrow keys of the mechanisms listed as open known findings (structural predicates only)."""
+def known_key(ent, ep, opts, exc, d, n):
+    """Narrow keys of mechanisms that are listed as open known findings (structural predicates only)."""
     msg = str(exc)
-    if ent == "tr-nnls" and isinstance(exc, RuntimeError) and msg.startswith("Maximum number of iterations") and (d["foreign"] or "").endswith(":nnls") \
+    foreign = d["foreign"] or ""
+    if ent == "tr-nnls" and isinstance(exc, RuntimeError) and msg.startswith("Maximum number of iterations") and foreign.endswith(":nnls") \
             and int(opts.get("max_iter", -1)) < 1:
         return "C18/tr-nnls/nnls-maxiter"
     if ent == "kk" and isinstance(exc, AssertionError) and "daemonic processes are not allowed to have children" in msg:
-        inner = opts if ep == "kk" else {}
-        if ep != "kk" or (inner.get("test") == "cnls" and int(inner.get("num_F_ext_evaluations", 20)) > 0 and int(inner.get("num_procs", -1)) != 1):
+        if ep != "kk" or (opts.get("test") == "cnls" and int(opts.get("num_F_ext_evaluations", 20)) > 0 and int(opts.get("num_procs", -1)) != 1):
             return "C18/kk/cnls-nested-pool"
+    if ent == "zhit" and ep == "zhit" and type(exc) is ValueError and d["site"] == "_smooth_phase" and int(opts.get("num_points", 3)) > n:
+        for fn, nm in (("savgol_filter", "savgol"), ("lowess", "lowess")):
+            if foreign.endswith(fn) and opts.get("smoothing", "modsinc") in (nm, "auto"):
+                return f"C18/zhit/num_points-exceeds-data:{nm}"
     return None
 
 
@@ -661,7 +666,7 @@ def kk_opts(row, n):
          "min_log_F_ext": lo, "max_log_F_ext": hi, "log_F_ext": float(row.get("lfe", 0.0)), "num_F_ext_evaluations": int(row["nfe"]),
          "rapid_F_ext_evaluations": bool(row["rapid"]), "num_procs": int(row.get("np", 1))}
     if test == "cnls":
-        o["max_nfev"] = int(row.get("max_nfev", 20))
+        o["max_nfev"] = int(row.get("max_nfev", CNLS_MAX_NFEV))
     return o
 
 
@@ -676,7 +681,7 @@ def kk_cost(o, n):
     if o["test"] == "cnls":
         if nfe > 0 and o["num_procs"] > 1:
             return 0.3
-        return rep * scale * (0.5 if nfe == 0 else 4.0) * (0.2 if o["num_RC"] > 0 else 1.0)
+        return rep * scale * (0.8 if nfe == 0 else 5.0) * (0.2 if o["num_RC"] > 0 else 1.0)
     if nfe == 0:
         return rep * 0.15 * scale * (0.1 if o["num_RC"] > 0 else 1.0)
     return rep * scale * 0.9 * (abs(nfe) / 15.0)
@@ -859,8 +864,8 @@ def gen_cases(tier, seed):
     # the nested-pool cell and the log_F_ext knob, always present
     sp = _spec(rng, 10, ppd=3, fam="rq2")
     extra = [
-        {"test": "cnls", "num_procs": 2, "max_nfev": 20, "admittance": False},
-        {"test": "cnls", "num_procs": 1, "max_nfev": 20, "admittance": False, "num_F_ext_evaluations": 10},
+        {"test": "cnls", "num_procs": 2, "max_nfev": 100, "admittance": False},
+        {"test": "cnls", "num_procs": 1, "max_nfev": 100, "admittance": False, "num_F_ext_evaluations": 10},
         {"test": "complex", "num_procs": 2},
         {"test": "real", "num_procs": 2, "num_F_ext_evaluations": 11, "min_log_F_ext": -0.5, "max_log_F_ext": 1.5},
         {"test": "imaginary", "num_RC": 6, "num_F_ext_evaluations": 0, "log_F_ext": 0.7, "num_procs": 1},
